@@ -76,7 +76,12 @@ def strategy(ctx):
 
 def run(ctx):
     n = 20 if ctx.quick else 400
-    cases = configs.collect(strategy(ctx), ctx.seed, n)
+    n_res = max(4, (4 * n) // 10)
+    cases = configs.collect(configs.standard_job(
+        nlive=(20, 200), allow_ckpt_on_training=True), ctx.seed, n - n_res)
+    cases += configs.collect(configs.standard_job(
+        nlive=(20, 200), resume_cycles=(1, 3), allow_ckpt_on_training=True),
+        ctx.seed + 1, n_res)
     cases += runcheck.known_cases("C01")
     return runcheck.execute_cases(ctx, "c01", cases, make_history, judge)
 
